@@ -279,6 +279,12 @@ func (x *Exec) callInterface(s *State, f *types.Func, recv *Value, recvExpr ast.
 		iname = n.Obj().Name()
 	}
 	// dynamic value known?
+	if recv != nil && recv.Dyn != nil && x.ifaceOver[recv.Dyn] != nil && x.ifaceOver[recv.Dyn][f.Name()] {
+		// a method that some implementer of the interface overrides: unknown behaviour
+		x.Unmod["(interface "+iname+")."+f.Name()+" (overridden by an implementer)"]++
+		x.havocPtrArgs(s, args)
+		return x.havocResults(s, sig, f.Name())
+	}
 	if recv != nil && recv.Dyn != nil && recv.Dyn.Typ != nil && recv.Dyn.K != KOpaque {
 		obj, _, _ := types.LookupFieldOrMethod(recv.Dyn.Typ, true, f.Pkg(), f.Name())
 		if m, ok := obj.(*types.Func); ok {
